@@ -85,12 +85,22 @@ func (w *World) reopenResized(rs resizeSpec) bool {
 			if !w.checkQuiescent("open (resize, faulty)") {
 				return false
 			}
-			if rs.NewPages > 0 {
+			if rs.OldPages > 0 && rs.NewPages > rs.OldPages {
 				if _, ok := w.Probe(); !ok {
 					return false
 				}
-			} else if !w.Begin(txfile.TxOptions{}) || !w.Alloc(3, 1) || !w.End(ORollback) {
-				return false
+			} else {
+				// (after a shrink free pages past the new limit may remain
+				// allocatable; nothing is demanded about the capacity then)
+				n := 3
+				if rs.NewPages > 0 {
+					if n = int(snap.DataAvail); n > 200 {
+						n = 200
+					}
+				}
+				if n > 0 && (!w.Begin(txfile.TxOptions{}) || !w.Alloc(n, 1) || !w.End(ORollback)) {
+					return false
+				}
 			}
 			w.Res.Add("faulty_resize_open_file_used", 1)
 			w.F = nil
@@ -270,11 +280,13 @@ func runResizeCase(c *core.Case) *core.Result {
 			if len(got) == 0 {
 				break
 			}
-			end := w.F.VerifSnapshot().DataEnd
-			for _, id := range got {
-				if _, live := w.Committed.Pages[id]; live && int(id) >= rs.NewPages && id+16 >= end {
-					tail = append(tail, id)
-				}
+		}
+		// free everything from a little below the new limit up to the end of the
+		// file: the free region then straddles the new limit or starts at it
+		lo := rs.NewPages - []int{0, 0, 1, 5, 11}[r.Intn(5)]
+		for _, id := range w.Committed.sortedIDs() {
+			if int(id) >= lo {
+				tail = append(tail, id)
 			}
 		}
 		if len(tail) > 0 {
